@@ -173,6 +173,22 @@ def StreamOk (H : History) (S : List Region) (r : Region) (sender : String) (err
 instance (H S r sender errOn S') : Decidable (StreamOk H S r sender errOn S') :=
   inferInstanceAs (Decidable (_ ∧ _ ∧ _ ∧ _ ∧ _))
 
+/-! ### readers that run while heartbeats are handled -/
+
+/-- rounds of concurrent heartbeats of ONE region with ever higher versions (`r` carries the highest) while a
+    client polls the region: the client never sees the version go back (`back` = the first such pair of versions),
+    and afterwards the served set is the old one with the highest version put (or unchanged if that one must be
+    refused) -/
+def RaceOk (H : History) (S : List Region) (r : Region) (back : Option (Nat × Nat)) (S' : List Region) : Prop :=
+  NoOverlap S' ∧ NoRegress H S' ∧ back = none ∧ S' = if MustReject S r then S else put S r
+instance (H S r back S') : Decidable (RaceOk H S r back S') := inferInstanceAs (Decidable (_ ∧ _ ∧ _ ∧ _))
+
+/-- (an excerpt of) one answer of a range scan that ran while heartbeats were handled: in key order and pairwise
+    disjoint -/
+def ScanAnswerOk (answer : List Region) : Prop :=
+  NoOverlap answer ∧ answer.Pairwise (fun a b => a.startKey < b.startKey)
+instance (answer : List Region) : Decidable (ScanAnswerOk answer) := inferInstanceAs (Decidable (_ ∧ _))
+
 inductive Ev where
   /-- one heartbeat at a time -/
   | hb (r : Region) (v : Verdict) (S' : List Region) (M' : List (Nat × Meta))
@@ -187,6 +203,9 @@ inductive Ev where
   | release (r : Region) (v : Verdict) (S' : List Region) (M' : List (Nat × Meta))
   /-- a heartbeat sent on a server stream (storage is not observed here) -/
   | stream (r : Region) (sender : String) (errOn : List String) (S' : List Region)
+  | race (r : Region) (back : Option (Nat × Nat)) (S' : List Region)
+  /-- an answer of ScanRegions given while heartbeats were handled (what is served afterwards is `S'`) -/
+  | scanned (answer : List Region) (S' : List Region)
 
 /-- the property over a trace -/
 def Holds : History → List Region → List (Nat × Meta) → List Ev → Prop
@@ -198,6 +217,8 @@ def Holds : History → List Region → List (Nat × Meta) → List Ev → Prop
   | H, S, M, .gate r o S' M' :: es => GateOk H S M r o S' M' ∧ Holds (record H S') S' M' es
   | H, S, M, .release r v S' M' :: es => ReleaseOk H S M r v S' M' ∧ Holds (record H S') S' M' es
   | H, S, M, .stream r sender errOn S' :: es => StreamOk H S r sender errOn S' ∧ Holds (record H S') S' M es
+  | H, S, M, .race r back S' :: es => RaceOk H S r back S' ∧ Holds (record H S') S' M es
+  | H, _, M, .scanned answer S' :: es => ScanAnswerOk answer ∧ Holds (record H S') S' M es
 
 def check : History → List Region → List (Nat × Meta) → List Ev → Bool
   | _, _, _, [] => true
@@ -208,6 +229,8 @@ def check : History → List Region → List (Nat × Meta) → List Ev → Bool
   | H, S, M, .gate r o S' M' :: es => decide (GateOk H S M r o S' M') && check (record H S') S' M' es
   | H, S, M, .release r v S' M' :: es => decide (ReleaseOk H S M r v S' M') && check (record H S') S' M' es
   | H, S, M, .stream r sender errOn S' :: es => decide (StreamOk H S r sender errOn S') && check (record H S') S' M es
+  | H, S, M, .race r back S' :: es => decide (RaceOk H S r back S') && check (record H S') S' M es
+  | H, _, M, .scanned answer S' :: es => decide (ScanAnswerOk answer) && check (record H S') S' M es
 
 theorem check_iff (H : History) (S : List Region) (M : List (Nat × Meta)) (es : List Ev) :
     check H S M es = true ↔ Holds H S M es := by
@@ -222,5 +245,7 @@ theorem check_iff (H : History) (S : List Region) (M : List (Nat × Meta)) (es :
     | gate r o S' M' => simp [check, Holds, ih]
     | release r v S' M' => simp [check, Holds, ih]
     | stream r sender errOn S' => simp [check, Holds, ih]
+    | race r back S' => simp [check, Holds, ih]
+    | scanned answer S' => simp [check, Holds, ih]
 
 end PdModel.Spec.C06
